@@ -251,8 +251,9 @@ RUnch == UNCHANGED <<cancelled, running, listener, lstate, nextid, counter, wg, 
 InNames(i) == \E k \in 1..Len(names) : names[k] = i
 R_Start(i) ==
   /\ rgpc = "idle"
-  /\ rgarg' = i /\ rgret' = "none"
-  /\ IF InNames(i) THEN rgpc' = "done" /\ rgret' = "refused" ELSE rgpc' = "dupok" /\ UNCHANGED <<>>
+  /\ rgarg' = i
+  /\ IF InNames(i) THEN rgpc' = "done" /\ rgret' = "refused"      \* 373: a name that is already there
+     ELSE rgpc' = "dupok" /\ rgret' = "none"
   /\ UNCHANGED <<names, g_regs>> /\ RUnch
 R_Insert ==         \* 351-356
   /\ rgpc = "dupok"
